@@ -1,4 +1,5 @@
 """Components for controlling data flow"""
+import copy
 import datetime as dt
 
 from ..data.grid_spec import NoGrid
@@ -155,7 +156,8 @@ class TimeTrigger(TimeComponent):
         self.time += self._step
 
         data = self.inputs["In"].pull_data(self.time)
-        self.outputs["Out"].push_data(data, self.time)
+        # the source may serve the same data set for several of this component's steps
+        self.outputs["Out"].push_data(copy.copy(data), self.time)
 
     def _finalize(self):
         pass
